@@ -150,6 +150,14 @@ func tryQueueReloadRequest(
 			log.Warnln("[Reload] Reload already in progress or handoff pending; ignoring this signal")
 		}
 		restoreRejectedReloadProgress(reloadActive, false)
+		// The in-flight reload may have released reloadPending (and already run
+		// clearRejectedReloadProgress) between the failed CAS above and the busy
+		// report just written. Nothing would clear that report afterwards, and
+		// `dae reload` refuses to signal while the progress file says busy.
+		// Re-check so that either this path or the releaser removes it.
+		if !reloadPending.Load() {
+			clearRejectedReloadProgress()
+		}
 		return false
 	}
 	beginReloadProxyFailureSuppression()
